@@ -1,7 +1,7 @@
 #!/bin/bash
 # run every registered quick check once (regenerates evidence/<id>.json); prints one summary line per property
-cd /verif
+cd "$(dirname "$0")/.."
 for p in C01 C02 C03 C04 C05 C06 C07 C08 C09 C10 C11 C12 C13 C14 C15 C16 C17 C18 C19 C20; do
-  t0=$(date +%s); ./check $p --tier ${1:-quick} > /tmp/run_$p.log 2>&1; rc=$?
-  echo "$p rc=$rc $(( $(date +%s) - t0 ))s $(tail -1 /tmp/run_$p.log)"
+  t0=$(date +%s); ./check $p --tier ${1:-quick} > /tmp/run_${1:-quick}_$p.log 2>&1; rc=$?
+  echo "$p rc=$rc $(( $(date +%s) - t0 ))s $(tail -1 /tmp/run_${1:-quick}_$p.log)"
 done
